@@ -54,6 +54,26 @@ def main():
             r0 = sh('/venv/bin/python zt_boot.py %s/demo.py' % sub, cwd=wt, timeout=600)
             ap_ = sh('git apply %s/patch.diff' % sub, cwd=wt)
             r1 = sh('/venv/bin/python zt_boot.py %s/demo.py' % sub, cwd=wt, timeout=600)
+            # the pinned suite inside the scratch worktree, imports bound to the worktree's
+            # sources (zt_boot): every test of BASELINE.stable_pass must still pass
+            junit = os.path.join(wt, 'junit.xml')
+            t = sh('/venv/bin/python -W ignore -c "import zt_boot, pytest, sys; '
+                   "sys.exit(pytest.main(['-q', '-p', 'no:cacheprovider', '--timeout=900', "
+                   "'--continue-on-collection-errors', '--junitxml=%s']))\" 2>&1 | tail -1" % junit,
+                   cwd=wt, timeout=900)
+            result['suite_in_worktree'] = t.stdout.strip()
+            try:
+                import xml.etree.ElementTree as ET
+                passed = set()
+                for tc in ET.parse(junit).getroot().iter('testcase'):
+                    if not list(tc):
+                        passed.add('%s::%s' % (tc.get('classname'), tc.get('name')))
+                want = set(json.load(open('/root/.vp/BASELINE.json'))['stable_pass'])
+                result['pinned_passed'] = '%d of %d' % (len(want & passed), len(want))
+                if want - passed:
+                    result['pinned_missing'] = sorted(want - passed)[:5]
+            except Exception as e:  # noqa
+                result['pinned_passed'] = 'could not read junit: %r' % (e,)
             result['demo_without'] = (r0.returncode, (r0.stdout + r0.stderr)[-200:])
             result['demo_with'] = (r1.returncode, (r1.stdout + r1.stderr)[-300:])
             result['patch_applies'] = ap_.returncode == 0
